@@ -12,7 +12,7 @@ import time
 
 VERIF = os.path.dirname(os.path.dirname(os.path.abspath(__file__)))
 REPO = os.environ.get('VERIF_REPO', '/repo')
-WORK = os.path.join(VERIF, '.work')
+WORK = os.environ.get('VERIF_WORK') or os.path.join(VERIF, '.work')      # overridable: parallel selftest shards
 DRIVER_DIR = os.path.join(VERIF, 'driver')
 DRIVER = os.path.join(DRIVER_DIR, 'target', 'release', 'mirfacts')
 
